@@ -251,7 +251,7 @@ func (g *gen) value() string {
 	case 23:
 		return g.interval()
 	case 24:
-		return g.pick("now()", "len(" + g.column() + ")")
+		return g.pick("now()", "len("+g.column()+")")
 	case 25: // forms inherited from the MySQL grammar that OctoSQL itself never consumes: kept rare
 		switch g.rng.Intn(12) {
 		case 0, 1:
